@@ -400,6 +400,13 @@ def run(run):
     nopixeldecision(run, fx)
     from . import posexec
     posexec.finalise_exec(run, fx, rules=('UNITS',), deep=getattr(run, 'tier', 'quick') != 'quick')      # Slot::finalise with symbolic floats: font run = scale x design-unit run
+    from .util import share as _share
+    if not getattr(run, '_sharing', False):
+        run._sharing = True
+        try:
+            _share(run, 'c09', ['UNHINTED'], 'UNITS')        # which fonts count as unhinted (shared with C09)
+        finally:
+            run._sharing = False
     fontuse(run, fx)
     from . import c09
     for f in [f for f in fx.fns_named('graphite2::Font::Font') if not f.f.get('implicit')]:
